@@ -102,7 +102,7 @@ Proof. exact old_arithmetic_refuted. Qed.
    sent), and after 10^9 s idle (sent). Hypotheses of c26_refines hold and both sides compute. *)
 Definition ex_params : params := mkParams 2 2 2 2 1 RRL_DEFAULT_IPV4_NETMASK RRL_DEFAULT_IPV6_NETMASK 1.
 Definition ex_ctx : ctx :=
-  mkCtx (V4 3221225985) Udp 0 (Some [[110; 120]; [101; 120]]) None (mkW 0 1 1 true false false 3) None true.
+  mkCtx (V4 [192; 0; 2; 1]) Udp 0 (Some [[110; 120]; [101; 120]]) None (mkW 0 1 1 true false false 3) None true.
 Definition ex_history : list (N * N) :=
   [(5000000000, 0); (5100000000, 0); (5200000000, 0); (5300000000, 0); (5400000000, 0);
    (6350000000, 0); (1000000006350000000, 0)].
